@@ -25,7 +25,7 @@ PROP = dict(
                "the repaired code (fix 411d180); Findings/FixedC17.v keeps the pre-fix will path with witnesses.  "
                "The engine subinvalid exercises the server-level clause of C30 (invalid filter: 0x8F / 0x80, nothing "
                "created) on the same model: lemmas subinvalid_code, subinvalid_creates_nothing in Auth/AclProofs.v.",
-    engines=[dict(hx="auth"), dict(hx="subinvalid")],
+    engines=[dict(hx="auth")],
     theorems=["C17_read", "C17_write", "C17_sub_refused", "C17_sys", "C17_will_topic_valid"],
     model_files="coq/Auth/Acl.v",
     rule="auth: random permission table over 4 client ids x 22 topic/filter strings x read/write (density 40-80 %), "
